@@ -166,7 +166,7 @@ def tlaps_supplement(ctx, module="IterWindow", theorems=("InitInv", "NextInv", "
     invariant for arbitrary haystack length and match set; GenericFwdUnbounded: loads in bounds and first-match correctness of
     the generic forward scan for arbitrary vector width, unroll factor, length, alignment and match set."""
     try:
-        p = subprocess.run(["timeout", "600", "tlapm", "--threads", "8", "--cleanfp", module + ".tla"], cwd=os.path.join(C.SPEC, "proofs"),
+        p = subprocess.run(["timeout", "300", "tlapm", "--threads", "8", "--cleanfp", module + ".tla"], cwd=os.path.join(C.SPEC, "proofs"),
                            stdout=subprocess.PIPE, stderr=subprocess.STDOUT, text=True)
         import re as _re
         m = _re.search(r"All (\d+) obligations proved", p.stdout)
@@ -182,7 +182,7 @@ def tlaps_supplement(ctx, module="IterWindow", theorems=("InitInv", "NextInv", "
 def c06(ctx):
     iter_part(ctx, {"result", "panic"})
     iter_traces(ctx, 150 if ctx.quick else 1500, ops_filter={"next", "next_back"})
-    extra = {} if ctx.quick else tlaps_supplement(ctx)
+    extra = tlaps_supplement(ctx)
     return C.finish(ctx, "model_checking", RULE_ITER, extra_cov=extra)
 
 
@@ -905,14 +905,15 @@ def c09(ctx):
 def c01(ctx):
     byte_search(ctx, ["find"], {"result", "panic"})
     lib_traces(ctx, "bytes", "first", "all", 1500 if ctx.quick else 12000, "bytes")
-    extra = {} if ctx.quick else tlaps_supplement(ctx, "GenericFwdUnbounded", ("InitInv", "NextInv", "Safety"))
+    extra = tlaps_supplement(ctx, "GenericFwdUnbounded", ("InitInv", "NextInv", "Safety"))
     return C.finish(ctx, "model_checking", RULE_BYTES, extra_cov=extra)
 
 
 def c02(ctx):
     byte_search(ctx, ["rfind"], {"result", "panic"})
     lib_traces(ctx, "bytes", "last", "all", 1500 if ctx.quick else 12000, "bytes")
-    return C.finish(ctx, "model_checking", RULE_BYTES)
+    extra = tlaps_supplement(ctx, "GenericRevUnbounded", ("InitInv", "NextInv", "Safety"))
+    return C.finish(ctx, "model_checking", RULE_BYTES, extra_cov=extra)
 
 
 def c07(ctx):
